@@ -8,6 +8,7 @@ import (
 	"errors"
 	"fmt"
 	"io"
+	"os"
 	"sync/atomic"
 
 	"github.com/gorilla/mux"
@@ -49,6 +50,9 @@ type System struct {
 
 func buildReader(db *sqlfake.DB, cluster string) *System {
 	rlogger.Logger.SetOutput(io.Discard)
+	if os.Getenv("VERIF_DEBUG") == "log" {
+		rlogger.Logger.SetOutput(os.Stderr)
+	}
 	cc := &clconfig.ClokiConfig{Setting: &config.ClokiBaseSettingServer{}}
 	cc.Setting.SYSTEM_SETTINGS.MetricsMaxSamples = 5000000
 	rconfig.Cloki = cc
